@@ -653,6 +653,17 @@ func (s *shadow) checkNoSkip(h *SHistory, i int, viol func(prop, class, what str
 		if s.oooAck[cx.vb] {
 			continue // acknowledgements of this vBucket were issued out of delivery order: outside C01's quantifier
 		}
+		// the same event may have been delivered twice (a transient stream end re-requests from the tracked position):
+		// acknowledged through its other context, it is settled
+		settledTwin := false
+		for _, other := range s.ctxs {
+			if other != cx && other.vb == cx.vb && other.off.Seq == cx.off.Seq && other.acked {
+				settledTwin = true
+			}
+		}
+		if settledTwin {
+			continue
+		}
 		if d, ok := s.store[cx.vb]; ok && d.Seq >= cx.off.Seq {
 			cl := "skip-after-crash"
 			if s.absorbedOver[cx.vb] {
